@@ -126,6 +126,7 @@ class KvRun(object):
         self.ch = sim.ch
         self.prop = sim.prop
         self.queries = []
+        self.current_keys = set()
         self.by_wire = []           # queries in the order their command must reach the server
         self.boot = None
         self.cells = set()
@@ -171,7 +172,11 @@ class KvRun(object):
             t = '%s.%d' % (tag, q)
             if k == 1:
                 # x=y lines whose x is unrelated to, contains, or is a proper substring of the requested key
-                t = ch.pick(['other', 'k2', key + 'x', 'x' + key, '', key[:4], key[-2:], key.split('/')[0], key[1:]], 'dk') + '=' + t
+                earlier = ['version', 'signal/names', 'events/names'] + [w for q in self.queries[:-1] if q.wire for w in q.wire.split()[1:]]
+                earlier = [k for k in earlier if k not in self.current_keys]    # (a requested key of THIS query is the recorded finding)
+                t = ch.pick(['other', 'k2', key + 'x', 'x' + key, '', key[:4], key[-2:], key.split('/')[0], key[1:],
+                             # a key that was asked for EARLIER on this connection (also by the library itself)
+                             earlier[ch.draw(len(earlier), 'earlierkey')]], 'dk') + '=' + t
                 if t.split('=', 1)[0] == key:
                     # the line repeats the requested key itself: indistinguishable from a repeated reply line once joined
                     if sim.gate('data-line-repeats-requested-key'):
@@ -218,6 +223,7 @@ class KvRun(object):
             keys = ['info/k%d_%d' % (q.idx, i) for i in range(nk)]
             if ch.chance(1, 3, 'plainkeys'):
                 keys = [ch.pick(['version', 'config-file', 'traffic/read', 'net/listeners/socks', 'md/id/X'], 'rk') + str(i) for i in range(nk)]
+            self.current_keys = set(keys)
             q.kind = 'get_info'
             q.wire = 'GETINFO ' + ' '.join(keys)
             parts, want = [], {}
@@ -239,6 +245,7 @@ class KvRun(object):
             d = self.proto.get_info(*keys)
         elif k in (1, 2):
             key = 'info/s%d' % q.idx
+            self.current_keys = set([key])
             single = k == 2
             q.kind = 'get_info_single' if single else 'get_info'
             q.wire = 'GETINFO ' + key
@@ -524,10 +531,14 @@ class KvRun(object):
             n += 1
         sim.drain(max_steps=20000, on_step=self.check_step)
         self.check_final()
-        sim.cells = self.cells
+        self.finished_run = True
+        sim.cells = getattr(sim, 'cells', None) or set()
+        sim.cells |= self.cells
+
+    finished_run = False
 
     def actions(self):
-        if not self.boot:
+        if not self.boot or self.finished_run:
             return []
         acts = []
         if self.left > 0 and sum(1 for q in self.queries if not q.done) < self.max_queue:
@@ -571,3 +582,8 @@ class KvRun(object):
 
 def run(sim):
     KvRun(sim).run()
+    if sim.violation is None and sim.ch.chance(1, 6, 'secondconn'):
+        # a second control connection in the same process: nothing of the first one may carry over
+        sim.probe('second-connection-same-process')
+        sim.log('second-connection')
+        KvRun(sim).run()
